@@ -279,7 +279,8 @@ def duck_input(nv, nq, npm, positive_acoustic=True):
     for v in range(nv):
         qps = []
         for q in range(nq):
-            modes = [100.0 + 1000 * q + 10 * m + 0.5 * v for m in range(npm)]
+            # generic spectrum: distinct values, NOT ascending in the mode index, branches crossing between volumes (mode-following order)
+            modes = [100.0 + 37.0 * ((7 * m + 3 * q + 5 * v * (m % 3)) % 11) + 0.01 * (m + 10 * q + 100 * v) for m in range(npm)]
             if q == 0 and not positive_acoustic:
                 modes[:3] = [0.0, -0.1, 0.0]
             qps.append(models.QPointData((0.0, 0.0, 0.1 * q), modes))
